@@ -135,6 +135,7 @@ func runC18(c *Ctx) {
 	p := c.P
 	// clauses this property shares with others (see DESIGN.md section 6a)
 	defer c.ImportRules("C09", "C09.1")
+	defer c.ImportRules("C12", "C12.5")
 	entry := serveHTTP(p)
 	D, direct := dispatchers(p)
 	reach := p.Reach(entry)
